@@ -41,6 +41,43 @@ def _methods(tree, want=None):
         yield name, fn
 
 
+_EXCLUDED = ("_modular_sub", "_modular_add", "_wrapped_cardinality", "_surrounds_member", "_is_surrounded")
+
+
+def _caller_context_only(tree):
+    """private helpers of StridedInterval that are referenced only as calls which the inliner expands in every caller:
+    their bodies are judged where they are used, under the facts of the call site (a helper that divides by the stride
+    of an operand its callers have already found to be no single value carries no such fact itself)"""
+    cached = getattr(tree, "_si_caller_ctx", None)
+    if cached is not None:
+        return cached
+    cls = tree.cls(SI, "StridedInterval")
+    raws = util.methods_of(cls)
+    out = set()
+    for h in raws:
+        if not h.startswith("_") or h.startswith("__") or h in _EXCLUDED:
+            continue
+        callers = [nm for nm, raw in raws.items() if nm != h and any(isinstance(x, ast.Attribute) and x.attr == h for x in ast.walk(raw))]
+        if not callers:
+            continue
+        other_refs = any(isinstance(x, ast.Attribute) and x.attr == h for mm in tree.modules.values() for x in ast.walk(mm.tree) if mm.path != SI) if hasattr(tree, "modules") else False
+        if other_refs:
+            continue
+        ok = True
+        for nm in callers:
+            fn = tree.func_inlined(SI, f"StridedInterval.{nm}", exclude=_EXCLUDED)
+            if any(isinstance(x, ast.Attribute) and x.attr == h for x in ast.walk(fn)):
+                ok = False
+                break
+        if ok:
+            out.add(h)
+    try:
+        tree._si_caller_ctx = out
+    except AttributeError:
+        pass
+    return out
+
+
 def _facts(node):
     """facts in positive text form, plus unit propagation: from `not (A and B)` and `A` follows `not B`"""
     out = [re.sub(r"^not \((.*)\)$", r"not \1", re.sub(r"\s+", " ", f)) for f in guards.holds(node)]
@@ -114,7 +151,7 @@ def c22_congruence(R):
                 f"stride divides 2**w (<3>7[1, 0] = {{1, 0}} was said not to contain 0)",
                 construct=f"{name}: congruence test `{norm(d)[:70]}`",
             )
-    R.need(n >= 3, f"only {n} congruence tests found")
+    R.need(n >= 2, f"only {n} congruence tests found")  # 3 today; the two mirror-image tests of the intersection may share a helper
     # the same for residues used as numbers (the last member before a pole is `pole - (pole - lb) % stride`)
     k = 0
     for name, fn in _methods(tree, lambda nm, raw: nm in ("_ssplit", "_nsplit", "_psplit")):
@@ -285,7 +322,10 @@ def c21_stridezero(R):
     tree = R.tree
     m = tree.mod(SI)
     n = 0
-    for name, fn in _methods(tree, lambda nm, raw: "stride" in ast.unparse(raw) and ("%" in ast.unparse(raw) or "//" in ast.unparse(raw))):
+    ctx_only = _caller_context_only(tree)
+    for name, fn in _methods(tree, lambda nm, raw: True):
+        if not ("stride" in ast.unparse(fn) and ("%" in ast.unparse(fn) or "//" in ast.unparse(fn))):
+            continue
         assigns = {}
         for st in walk_no_nested(fn):
             if isinstance(st, ast.Assign) and len(st.targets) == 1:
@@ -298,6 +338,8 @@ def c21_stridezero(R):
             if "stride" not in dt or isinstance(div, ast.Constant):
                 continue
             n += 1
+            if name in ctx_only:
+                continue  # judged in its callers, with the facts of the call sites
             if (name, dt) in _NONZERO_EXEMPT:
                 R.ok(m, x, f"{name}: `{dt}` non-zero: {_NONZERO_EXEMPT[(name, dt)]}")
                 continue
@@ -539,7 +581,7 @@ def c22_signedq(R):
                     f"the negative half (<3>7[5, 4] = {{-3, -4}} had signed maximum 5)",
                     construct=f"_signed_bounds: {'lower' if j == 0 else 'upper'} bound of piece {i + 1 if len(tuples) > 1 else 'the single'}",
                 )
-    R.need(n >= 4, f"_signed_bounds: only {n} bounds found")
+    R.need(n >= 2, f"_signed_bounds: only {n} bounds found")  # 4 written out per piece, 2 in a comprehension over the pieces
     ev = tree.func_inlined(SI, "StridedInterval.eval")
     ps = [a.arg for a in ev.args.args]
     sp = ps[2] if len(ps) > 2 else "signed"
